@@ -16,6 +16,7 @@ pub mod select;
 pub mod lang;
 pub mod resolve;
 pub mod pipeline;
+pub mod frontend;
 pub mod cbor;
 pub mod ledger;
 
@@ -72,6 +73,7 @@ fn dispatch(case: &Value) -> Value {
         "select" => select::run(case),
         "resolve" => resolve::run(case),
         "pipeline" => pipeline::run(case),
+        "frontend" => frontend::run(case),
         "ping" => json!({"pong": true}),
         other => json!({"tool_error": format!("unknown cmd {other}")}),
     }
